@@ -339,6 +339,7 @@ func (p *commCase) End(cb *CodeBuilder, src ast.Node) {
 // end
 type typeSwitchStmt struct {
 	init  target.Stmt
+	pre   []target.Stmt // header statements that precede the type switch statement
 	name  string
 	x     target.Expr
 	xSrc  ast.Node
@@ -348,12 +349,8 @@ type typeSwitchStmt struct {
 }
 
 func (p *typeSwitchStmt) TypeAssertThen(cb *CodeBuilder) {
-	switch stmts := cb.clearBlockStmt(); len(stmts) {
-	case 0:
-		// nothing to do
-	case 1:
-		p.init = stmts[0]
-	default:
+	var ok bool
+	if p.init, p.pre, ok = splitHeaderStmts(cb.clearBlockStmt()); !ok {
 		panic("TODO: type switch statement has too many init statements")
 	}
 	x := cb.stk.Pop()
